@@ -105,6 +105,12 @@ func init() {
 		Replay: func(c *engine.Ctx, raw json.RawMessage) {
 			var cs c02Case
 			unmarshalCase(raw, &cs)
+			if cs.Name == "rekeyed-object" {
+				for prfIdx := 0; prfIdx < 3; prfIdx++ {
+					c02Rekeyed(c, cs.Suite, prfIdx)
+				}
+				return
+			}
 			evalC02(c, cs, engine.UnHex(cs.Input), unhexAll(cs.Genuine))
 		},
 	})
@@ -142,7 +148,55 @@ func c02Messages(thorough bool) []univ.Inst {
 	return out
 }
 
+// c02Rekeyed: a key object on which GenerateKeyForIKESA ran twice must refuse messages protected under the
+// first key set (an unrelated key set from its point of view) and accept messages under the second.
+func c02Rekeyed(c *engine.Ctx, si, prfIdx int) {
+	c.Evals++
+	s := ref.Suites()[si]
+	cs7 := c07Case{PRF: prfIdx, Integ: si % 3, Encr: si / 3, DH: 1}
+	cs := c02Case{Name: "rekeyed-object", Suite: si, Class: "cross-key(rekeyed-object)"}
+	sa := infoSA(cs7)
+	n1, g1, n2, g2 := univ.Pat(40, 1), univ.Pat(256, 2), univ.Pat(44, 3), univ.Pat(256, 4)
+	if err := sa.GenerateKeyForIKESA(n1, g1, 1, 2); err != nil {
+		return
+	}
+	if err := sa.GenerateKeyForIKESA(n2, g2, 3, 4); err != nil {
+		c.Violate("rekey-error", errStr(err), cs)
+		return
+	}
+	p := ref.PRFs[prfIdx]
+	k1 := ref.DeriveIKE(p, s.Integ, s.EncrKeyLen, n1, g1, 1, 2)
+	k2 := ref.DeriveIKE(p, s.Integ, s.EncrKeyLen, n2, g2, 3, 4)
+	m := ref.Msg{H: univ.BaseHdr, P: []ref.Payload{{T: ref.PNonce, Data: univ.Pat(20, 5)}}}
+	_, inner, _ := ref.EncodeChain(m.P, ref.Lib{})
+	pad := (16 - (len(inner)+1)%16) % 16
+	old, _ := ref.Protect(s, k1.SKei, k1.SKai, m, ref.Lib{}, univ.Pat(16, 6), univ.Pat(pad, 7))
+	cur, _ := ref.Protect(s, k2.SKei, k2.SKai, m, ref.Lib{}, univ.Pat(16, 6), univ.Pat(pad, 7))
+	cs.Input = engine.Hex(old)
+	var err error
+	if pi := engine.Catch(func() { _, err = ike.DecodeDecrypt(old, nil, sa, message.Role_Responder) }); pi != nil {
+		c.Violate(pi.Sig(), "DecodeDecrypt on a rekeyed object panics: "+pi.Value, cs)
+		return
+	}
+	if err == nil {
+		c.Violate("accepted/cross-key(rekeyed-object)", fmt.Sprintf("suite %v: after a second GenerateKeyForIKESA on the same object, a message protected under the FIRST key set is still accepted", s), cs)
+		return
+	}
+	if pi := engine.Catch(func() { _, err = ike.DecodeDecrypt(cur, nil, sa, message.Role_Responder) }); pi != nil || err != nil {
+		c.Violate("genuine-rejected/rekeyed-object", fmt.Sprintf("suite %v: a message under the current key set is refused after rekeying the object: %v", s, err), cs)
+		return
+	}
+	c.Count("rejected/cross-key(rekeyed-object)", 1)
+}
+
 func runC02(c *engine.Ctx) {
+	for si := 0; si < 9; si++ {
+		for prfIdx := 0; prfIdx < 3; prfIdx++ {
+			if c.Mine() {
+				c02Rekeyed(c, si, prfIdx)
+			}
+		}
+	}
 	msgs := c02Messages(c.Thorough())
 	al := univ.Alphabet()
 	for mi, inst := range msgs {
